@@ -1007,6 +1007,46 @@ pub fn main(args: &Args) -> ! {
         let (n, _) = e2_cases(&mut rep, "c11", &cases, if thorough { 3 } else { 2 }, alts, dl, true, &oracle);
         rep.transitions += n;
     }
+    // terminal events under loss on one side: every drop subset of eight consecutive datagrams of the
+    // writer (a data packet together with the packet carrying only the FIN, a FIN and its probes) or
+    // of the reader: every finished stream still ends with exactly one Finished and the reader sees
+    // its end
+    {
+        use crate::scen::Wl;
+        let mut tasks = vec![];
+        // (short round trips: a packet sent a moment after the FIN-only one is acknowledged within the
+        // loss delay, so that an earlier data packet and the FIN are declared lost in one pass)
+        for cfgname in ["default", "lat1", "lat0"] {
+            for wl in [Wl::W11, Wl::W9, Wl::W1] {
+                for node in [crate::sim::CLIENT, crate::sim::SERVER] {
+                    for first in if thorough { vec![3u64, 4, 5, 6, 8] } else { vec![4u64, 6] } {
+                        if !thorough && cfgname == "default" && first != 4 {
+                            continue;
+                        }
+                        for mask in 1..(1u64 << 8) {
+                            tasks.push((cfgname, wl, node, first, mask));
+                        }
+                    }
+                }
+            }
+        }
+        let planned = tasks.len();
+        let base2 = std::time::Instant::now();
+        let (res2, capped2) = crate::explore::e3(tasks, dl, |(cfgname, wl, node, first, mask)| crate::checks::c02::run_one_masks(base2, &cfg_by_name(cfgname), *wl, 6, 0, 0, Some((*node, *first, *mask)), &Default::default()));
+        rep.exhaustive &= !capped2;
+        for ((cfgname, wl, node, first, mask), o) in &res2 {
+            rep.evaluations += 1;
+            rep.distinct.insert(o.trace);
+            if let Some((sig, what)) = o.viol.first() {
+                rep.violation(Violation {
+                    signature: format!("terminal-under-loss:{sig}"),
+                    what: format!("cfg={cfgname} wl={wl:?} drop mask {mask:#b} over the {} datagrams #{first}.. : {what}", if *node == crate::sim::SERVER { "server's" } else { "client's" }),
+                    replay: json!({"check":"c02","replay_with":"./check C02 --replay","kind":"mask","cfg":cfgname,"wl":format!("{wl:?}"),"k":6,"mask":0,"node_mask":[node, first, mask]}),
+                });
+            }
+        }
+        rep.part("terminal_events_under_one_sided_loss", json!({"K": 8, "planned": planned, "executed": res2.len(), "capped": capped2}));
+    }
     rep.states = sigs.len() as u64;
     rep.part("sequences", json!({"variants": variants.len(), "depth_uni": du, "depth_bidi": db, "sequences": total, "executed": res.len(), "capped": capped}));
     rep.sample(json!({"initiator":"client","bidi":false,"seq":["Write","AB","Stop","BA","Write","Finish"],"meaning":"client writes 3 bytes, they are delivered, the server application stops the stream, STOP_SENDING is delivered; the next write and finish must both report Stopped(9) and exactly one Stopped event must have been emitted"}));
